@@ -816,9 +816,19 @@ func solveOb(ob *Obligation, o SolveOpts) {
 	r := solveText(text, obFile(o.Dir, ob), o)
 	if ob.Cover && r.status != "sat" && r.status != "unsat" {
 		// a vacuity check that ran out of time under load is retried once with a longer limit
-		o2 := o
-		o2.TimeoutMs = o.TimeoutMs * 4
-		r = solveText(text, obFile(o.Dir, ob), o2)
+		// first without the quantified background axioms (they keep a solver from answering `sat`;
+		// a weaker check, noted in the solver name), then once more with a longer limit
+		ob.NoAx = true
+		rn := solveText(ob.script.render(ob, nil, nil), obFile(o.Dir, ob), o)
+		if rn.status == "sat" {
+			rn.solver += " (without quantified axioms)"
+			r = rn
+		} else {
+			ob.NoAx = false
+			o2 := o
+			o2.TimeoutMs = o.TimeoutMs * 4
+			r = solveText(text, obFile(o.Dir, ob), o2)
+		}
 	}
 	if !ob.Cover && r.status != "sat" && r.status != "unsat" {
 		// undecided: split on the conditions of the most recent state merges (E-matching does not
